@@ -88,6 +88,10 @@ func (sm *Subscriptions) ProcessStateCtx(
 		if _, ok := sm.stateCtx[s]; !ok {
 			continue
 		}
+		// created after the activation was applied: bound to the new instance
+		if sm.isCurrentStateCtx(s) {
+			continue
+		}
 
 		toCancel = append(toCancel, sm.stateCtx[s].Cancel)
 		sm.log(LogOps, "[ctx:match] %s", s)
@@ -98,6 +102,9 @@ func (sm *Subscriptions) ProcessStateCtx(
 		if _, ok := sm.stateCtx[s]; !ok {
 			continue
 		}
+		if sm.isCurrentStateCtx(s) {
+			continue
+		}
 
 		toCancel = append(toCancel, sm.stateCtx[s].Cancel)
 		sm.log(LogOps, "[ctx:match] %s", s)
@@ -105,6 +112,14 @@ func (sm *Subscriptions) ProcessStateCtx(
 	}
 
 	return toCancel
+}
+
+// isCurrentStateCtx tells if the state context of [state] was created for the
+// current tick of the state.
+func (sm *Subscriptions) isCurrentStateCtx(state string) bool {
+	v, ok := sm.stateCtx[state].Ctx.Value(CtxKey).(CtxValue)
+
+	return ok && v.Tick == sm.clock[state]
 }
 
 // ProcessWhen collects all the matched active state subscriptions, and
